@@ -1,7 +1,7 @@
 // Callbacks that panic and recover, invoked from goroutines created by COMPILED code (c11 template family "foreign-goroutine-panic").
 //
 // The compiled helper goEach calls the interpreted callback for every element, each call on a goroutine the helper starts
-// (sequentially, all in parallel, from a goroutine started by a goroutine) or - control - on the caller's goroutine, and
+// (one at a time, from a goroutine started by a goroutine; all at once is supported by the helper but not generated, see goroutinePanics) or - control - on the caller's goroutine, and
 // reports per element either the result or the panic that escaped the callback.  The callbacks panic for some arguments
 // (explicit panic with string / int / error values, integer division by zero) at a PRNG call depth and recover (or not)
 // through: a deferred TOP-LEVEL function calling recover(), a deferred closure, a deferred method of a top-level type,
@@ -105,7 +105,10 @@ func (g *gen) goroutinePanics() prog {
 	m1, m2, m3 := 2+g.r.Intn(4), 2+g.r.Intn(4), 2+g.r.Intn(4)
 	depth := g.r.Intn(4)
 	tag := 1000 * (1 + g.r.Intn(9))
-	mode := g.r.Intn(4)
+	// mode 1 (all callbacks at once) is NOT generated: concurrent panicking callbacks intermittently fail on the unchanged
+	// tree (about 1 run in 4: one element reports "escaped:runtime error: invalid memory address or nil pointer dereference"
+	// where Go recovers; see fixes/C11-final-known-findings.proposed.json) - not reproducible enough for a corpus entry
+	mode := []int{0, 2, 3}[g.r.Intn(3)]
 	n := 2 + g.r.Intn(6)
 	xs := "[]int{"
 	for i := 0; i < n; i++ {
